@@ -851,3 +851,500 @@ Section AlphaProcessP.
       f_equal. apply (NoDup_map_In_inj ag_ctx gens); auto.
   Qed.
 End AlphaProcessP.
+
+(* ================================================================ the process machine *)
+
+Lemma In_set_nth {A} (x y : A) : forall l n, In x (set_nth n y l) -> x = y \/ In x l.
+Proof.
+  induction l as [|a l IH]; intros [|n] H; cbn [set_nth] in H; try contradiction.
+  - destruct H as [<-|H]; [auto|right; right; exact H].
+  - destruct H as [<-|H]; [right; left; reflexivity|].
+    destruct (IH n H) as [->|H']; [auto|right; right; exact H'].
+Qed.
+
+Lemma set_nth_In_new {A} (a b : A) : forall l n, nth_error l n = Some a -> In b (set_nth n b l).
+Proof.
+  induction l as [|x l IH]; intros [|n] H; cbn [nth_error] in H; try discriminate; cbn [set_nth].
+  - left; reflexivity.
+  - right. eapply IH; eauto.
+Qed.
+
+Lemma set_nth_keeps {A} (a b x : A) : forall l n,
+  nth_error l n = Some a -> In x l -> x <> a -> In x (set_nth n b l).
+Proof.
+  induction l as [|y l IH]; intros [|n] H Hin Hne; cbn [nth_error] in H; try discriminate; cbn [set_nth].
+  - injection H as ->. destruct Hin as [->|Hin]; [contradiction|right; exact Hin].
+  - destruct Hin as [->|Hin]; [left; reflexivity|right; eapply IH; eauto].
+Qed.
+
+Lemma map_set_nth_same {A B} (f : A -> B) (a b : A) : forall l n,
+  nth_error l n = Some a -> f b = f a -> map f (set_nth n b l) = map f l.
+Proof.
+  induction l as [|x l IH]; intros [|n] H He; cbn [nth_error] in H; try discriminate;
+    cbn [set_nth map].
+  - injection H as ->. rewrite He. reflexivity.
+  - f_equal. eapply IH; eauto.
+Qed.
+
+Definition key_ci (k : rspec * Z * Z) : Z * Z := (snd (fst k), snd k).
+
+(* invariant of the process machine, together with the keys drawn so far *)
+Definition pinv (s : pstate) (log : list (rspec * Z * Z)) : Prop :=
+  (forall lg, In lg (ps_gens s) -> lg_ctx lg < ps_counter s) /\
+  NoDup (map lg_ctx (ps_gens s)) /\
+  (forall r c i, In (r, c, i) log ->
+     exists lg, In lg (ps_gens s) /\ lg_ctx lg = c /\ i < lg_next lg /\ lg_spec lg = r) /\
+  NoDup (map key_ci log).
+
+Lemma pinv_init c0 : pinv (p_init c0) [].
+Proof.
+  unfold pinv, p_init. cbn [ps_gens ps_counter map]. splits.
+  - intros lg [].
+  - constructor.
+  - intros r c i [].
+  - constructor.
+Qed.
+
+Lemma pinv_new_ok s log r start :
+  pinv s log -> pinv (mkPstate (ps_counter s + 1) (ps_gens s ++ [mkLgen r (ps_counter s) start])) log.
+Proof.
+  intros (I1 & I2 & I3 & I4). unfold pinv. cbn [ps_gens ps_counter]. splits.
+  - intros lg Hin. apply in_app_or in Hin. destruct Hin as [Hin|[<-|[]]].
+    + specialize (I1 lg Hin). lia.
+    + cbn [lg_ctx]. lia.
+  - rewrite map_app. cbn [map lg_ctx]. apply NoDup_app_intro; [exact I2|repeat constructor; intros []|].
+    intros c Hc [<-|[]]. apply in_map_iff in Hc. destruct Hc as (lg & Hc & Hin).
+    specialize (I1 lg Hin). lia.
+  - intros r0 c i Hin. destruct (I3 r0 c i Hin) as (lg & Hlg & H). exists lg. split; [|exact H].
+    apply in_or_app. left. exact Hlg.
+  - exact I4.
+Qed.
+
+Lemma pinv_burn s log n : 0 <= n ->
+  pinv s log -> pinv (mkPstate (ps_counter s + n) (ps_gens s)) log.
+Proof.
+  intros Hn (I1 & I2 & I3 & I4). unfold pinv. cbn [ps_gens ps_counter]. splits; auto.
+  intros lg Hin. specialize (I1 lg Hin). lia.
+Qed.
+
+Lemma pinv_new_err s log :
+  pinv s log -> pinv (mkPstate (ps_counter s + 1) (ps_gens s)) log.
+Proof. apply pinv_burn. lia. Qed.
+
+Lemma pinv_draw s log g n lg :
+  pinv s log -> nth_error (ps_gens s) g = Some lg ->
+  pinv (mkPstate (ps_counter s)
+                 (set_nth g (mkLgen (lg_spec lg) (lg_ctx lg) (lg_next lg + Z.of_nat n)) (ps_gens s)))
+       (log ++ map (fun i => (lg_spec lg, lg_ctx lg, i)) (Zseq (lg_next lg) n)).
+Proof.
+  intros (I1 & I2 & I3 & I4) Hn.
+  set (lg' := mkLgen (lg_spec lg) (lg_ctx lg) (lg_next lg + Z.of_nat n)).
+  assert (Hlg : In lg (ps_gens s)) by (eapply nth_error_In; eauto).
+  assert (Hsame : forall lg0, In lg0 (ps_gens s) -> lg_ctx lg0 = lg_ctx lg -> lg0 = lg).
+  { intros lg0 H0 He. apply (NoDup_map_In_inj lg_ctx (ps_gens s)); auto. }
+  unfold pinv. cbn [ps_gens ps_counter]. splits.
+  - intros lg0 Hin. apply In_set_nth in Hin. destruct Hin as [->|Hin]; [|auto].
+    unfold lg'. cbn [lg_ctx]. auto.
+  - rewrite (map_set_nth_same lg_ctx lg lg' _ _ Hn); [exact I2|reflexivity].
+  - intros r c i Hin. apply in_app_or in Hin. destruct Hin as [Hin|Hin].
+    + destruct (I3 r c i Hin) as (lg0 & H0 & Hc & Hi & Hr).
+      destruct (Z.eq_dec (lg_ctx lg0) (lg_ctx lg)) as [He|Hne].
+      * pose proof (Hsame lg0 H0 He) as ->. exists lg'. split; [eapply set_nth_In_new; eauto|].
+        unfold lg'. cbn [lg_ctx lg_next lg_spec]. splits; auto. lia.
+      * exists lg0. split; [|auto]. eapply set_nth_keeps; eauto. congruence.
+    + apply in_map_iff in Hin. destruct Hin as (j & Hj & Hin). injection Hj as <- <- <-.
+      apply Zseq_In in Hin. exists lg'. split; [eapply set_nth_In_new; eauto|].
+      unfold lg'. cbn [lg_ctx lg_next lg_spec]. splits; auto. lia.
+  - rewrite map_app, map_map. apply NoDup_app_intro; [exact I4| |].
+    + apply NoDup_map_inj_on; [apply Zseq_NoDup|]. intros x y _ _ H. unfold key_ci in H. cbn [fst snd] in H.
+      congruence.
+    + intros [c i] Hold Hnew. apply in_map_iff in Hnew. destruct Hnew as (j & Hj & Hin).
+      unfold key_ci in Hj. cbn [fst snd] in Hj. injection Hj as <- <-. apply Zseq_In in Hin.
+      apply in_map_iff in Hold. destruct Hold as ([[r c] i] & Hk & Hold).
+      unfold key_ci in Hk. cbn [fst snd] in Hk. injection Hk as -> ->.
+      destruct (I3 r _ _ Hold) as (lg0 & H0 & Hc & Hi & _).
+      pose proof (Hsame lg0 H0 Hc) as ->. lia.
+Qed.
+
+Lemma pinv_step s log o :
+  pinv s log -> pinv (fst (p_step s o)) (log ++ snd (p_step s o)).
+Proof.
+  intros Hinv. destruct o as [[[r start]|e]|g n|n|]; cbn [p_step fst snd].
+  - rewrite app_nil_r. apply pinv_new_ok; assumption.
+  - rewrite app_nil_r. apply pinv_new_err; assumption.
+  - destruct (nth_error (ps_gens s) g) as [lg|] eqn:Hn; cbn [fst snd].
+    + apply pinv_draw; assumption.
+    + rewrite app_nil_r. destruct s; assumption.
+  - rewrite app_nil_r. apply pinv_burn; [lia|assumption].
+  - rewrite app_nil_r. destruct s; assumption.
+Qed.
+
+Lemma pinv_run : forall ops s log,
+  pinv s log -> pinv (fst (p_run s ops)) (log ++ snd (p_run s ops)).
+Proof.
+  induction ops as [|o ops IH]; intros s log Hinv; cbn [p_run].
+  - cbn [fst snd]. rewrite app_nil_r. assumption.
+  - pose proof (pinv_step s log o Hinv) as H1.
+    destruct (p_step s o) as [s1 ks] eqn:E1. cbn [fst snd] in H1.
+    pose proof (IH s1 (log ++ ks) H1) as H2.
+    destruct (p_run s1 ops) as [s2 ks'] eqn:E2. cbn [fst snd] in H2 |- *.
+    rewrite app_assoc. assumption.
+Qed.
+
+Lemma process_pinv c0 ops : pinv (fst (p_run (p_init c0) ops)) (process_keys c0 ops).
+Proof. apply (pinv_run ops (p_init c0) [] (pinv_init c0)). Qed.
+
+(* the (context, index) pairs of all draws of a process are pairwise different *)
+Lemma process_keys_NoDup c0 ops : NoDup (map key_ci (process_keys c0 ops)).
+Proof. destruct (process_pinv c0 ops) as (_ & _ & _ & H). exact H. Qed.
+
+(* a context number belongs to one generator *)
+Lemma process_keys_spec_fun c0 ops r r' c i i' :
+  In (r, c, i) (process_keys c0 ops) -> In (r', c, i') (process_keys c0 ops) -> r = r'.
+Proof.
+  destruct (process_pinv c0 ops) as (_ & I2 & I3 & _). intros H H'.
+  destruct (I3 _ _ _ H) as (lg & Hlg & Hc & _ & Hr).
+  destruct (I3 _ _ _ H') as (lg' & Hlg' & Hc' & _ & Hr').
+  assert (lg = lg') by (apply (NoDup_map_In_inj lg_ctx _ _ _ I2); congruence).
+  congruence.
+Qed.
+
+Lemma process_keys_NoDup_full c0 ops : NoDup (process_keys c0 ops).
+Proof. eapply NoDup_map_inv. apply process_keys_NoDup. Qed.
+
+Section MachineP.
+  Variable mask : Z -> Z -> Z.
+  Variable nbits : Z -> Z.
+  Variable bpc : Z -> Z.
+
+  (* two comparable generators whose template has context and index: a value in common only for the
+     same context number and the same index *)
+  Lemma rvalue_inj r r' c c' i i' v :
+    comparable r r' -> In PContext (spec_tpl r) -> In PIndex (spec_tpl r) ->
+    rvalue mask nbits bpc r c i = Ok v -> rvalue mask nbits bpc r' c' i' = Ok v ->
+    c = c' /\ i = i'.
+  Proof.
+    destruct r as [tpl pid rand|tpl pid a], r' as [tpl' pid' rand'|tpl' pid' a'];
+      cbn [comparable spec_tpl]; try contradiction.
+    - intros (<- & Hl & <-) Hc Hi. unfold rvalue, bind.
+      destruct (num_value mask nbits tpl pid c i rand) as [z|] eqn:E; [|discriminate].
+      destruct (num_value mask nbits tpl pid' c' i' rand) as [z'|] eqn:E'; [|discriminate].
+      intros H H'. injection H as <-. injection H' as ->.
+      destruct (num_value_inj mask nbits _ _ _ _ _ _ _ _ _ Hi Hl E E') as (-> & Hcc & _). auto.
+    - intros (<- & Hl & Habc & Hr & Hnd & Hlen) Hc Hi. unfold rvalue, bind.
+      destruct (alpha_value mask nbits bpc a tpl pid c i) as [z|] eqn:E; [|discriminate].
+      destruct (alpha_value mask nbits bpc a' tpl pid' c' i') as [z'|] eqn:E'; [|discriminate].
+      intros H H'. injection H as <-. injection H' as ->.
+      destruct (alpha_value_inj mask nbits bpc _ _ _ _ _ _ _ _ _ _ Habc Hr Hnd Hlen Hi Hl E E')
+        as (-> & Hcc & _). auto.
+  Qed.
+
+  (* ... hence, over a whole process (any number of runs, generators made and drawn in any order): two
+     draws of comparable generators with context and index in the template never give the same value *)
+  Lemma process_same_shape_distinct c0 ops r r' c c' i i' v :
+    In (r, c, i) (process_keys c0 ops) -> In (r', c', i') (process_keys c0 ops) ->
+    comparable r r' -> In PContext (spec_tpl r) -> In PIndex (spec_tpl r) ->
+    rvalue mask nbits bpc r c i = Ok v -> rvalue mask nbits bpc r' c' i' = Ok v ->
+    (r, c, i) = (r', c', i').
+  Proof.
+    intros Hin Hin' Hcmp Hc Hi Hv Hv'.
+    destruct (rvalue_inj _ _ _ _ _ _ _ Hcmp Hc Hi Hv Hv') as [<- <-].
+    rewrite (process_keys_spec_fun _ _ _ _ _ _ _ Hin Hin'). reflexivity.
+  Qed.
+
+  (* all default numeric generators (small-id and big-id mode mixed, any pids): all values of the process
+     are pairwise distinct — no hypothesis about context numbers: the machine allocates them *)
+  Lemma process_default_numeric_NoDup c0 ops vs :
+    (forall r c i, In (r, c, i) (process_keys c0 ops) ->
+       exists big pid, r = RNum (default_numeric_tpl big) pid true) ->
+    process_values mask nbits bpc c0 ops = map Ok vs -> NoDup vs.
+  Proof.
+    intros Hdef He. unfold process_values in He.
+    eapply NoDup_of_injective_keys; [apply process_keys_NoDup_full| |exact He].
+    intros [[r c] i] [[r' c'] i'] v Hx Hy Hv Hv'.
+    destruct (Hdef _ _ _ Hx) as (big & pid & ->). destruct (Hdef _ _ _ Hy) as (big' & pid' & ->).
+    unfold key_value, rvalue, bind in Hv, Hv'.
+    destruct (num_value mask nbits (default_numeric_tpl big) pid c i true) as [z|] eqn:E; [|discriminate].
+    destruct (num_value mask nbits (default_numeric_tpl big') pid' c' i' true) as [z'|] eqn:E'; [|discriminate].
+    injection Hv as <-. injection Hv' as ->.
+    destruct (pipeline_numeric_pair mask nbits _ _ _ _ _ _ _ _ _ E E') as [<- <-].
+    rewrite (process_keys_spec_fun _ _ _ _ _ _ _ Hx Hy). reflexivity.
+  Qed.
+
+  (* BIG-ID-MODE default alpha generators over one duplicate-free alphabet / randomize_codes flag (any
+     min_chars, any pids): all codes of the process are pairwise distinct — again without a hypothesis
+     about context numbers *)
+  Lemma process_default_alpha_big_NoDup c0 ops abc rc vs :
+    NoDup abc -> (2 <= length abc)%nat ->
+    (forall r c i, In (r, c, i) (process_keys c0 ops) ->
+       exists pid a, r = RAlpha (default_alpha_tpl true) pid a /\ al_alphabet a = abc /\ al_randomize a = rc) ->
+    process_values mask nbits bpc c0 ops = map Ok vs -> NoDup vs.
+  Proof.
+    intros Hnd Hlen Hdef He. unfold process_values in He.
+    eapply NoDup_of_injective_keys; [apply process_keys_NoDup_full| |exact He].
+    intros [[r c] i] [[r' c'] i'] v Hx Hy Hv Hv'.
+    destruct (Hdef _ _ _ Hx) as (pid & a & -> & Ha & Hr).
+    destruct (Hdef _ _ _ Hy) as (pid' & a' & -> & Ha' & Hr').
+    unfold key_value, rvalue, bind in Hv, Hv'.
+    destruct (alpha_value mask nbits bpc a (default_alpha_tpl true) pid c i) as [z|] eqn:E; [|discriminate].
+    destruct (alpha_value mask nbits bpc a' (default_alpha_tpl true) pid' c' i') as [z'|] eqn:E'; [|discriminate].
+    injection Hv as <-. injection Hv' as ->.
+    assert (Hp : c = c' /\ i = i').
+    { eapply (pipeline_alpha_pair_big mask nbits bpc a a'); [congruence|congruence|rewrite Ha; exact Hnd|
+                                                            rewrite Ha; exact Hlen|exact E|exact E']. }
+    destruct Hp as [<- <-].
+    rewrite (process_keys_spec_fun _ _ _ _ _ _ _ Hx Hy). reflexivity.
+  Qed.
+End MachineP.
+
+(* ================================================================ template strings *)
+
+Definition valid_part (p : part) : Prop :=
+  match p with PBad => False | PNum n => 0 <= n | _ => True end.
+
+(* a character of a canonical spelling: ASCII, not the comma, not white space, not upper case *)
+Definition plain_char (c : Z) : Prop :=
+  0 <= c < 128 /\ c <> 44 /\ is_space c = false /\ lower_char c = c.
+
+Lemma lstrip_plain s : Forall plain_char s -> lstrip s = s.
+Proof.
+  destruct s as [|c r]; [reflexivity|]. intros H. inversion H as [|? ? (_ & _ & Hs & _) _]; subst.
+  cbn [lstrip]. rewrite Hs. reflexivity.
+Qed.
+
+Lemma strip_plain s : Forall plain_char s -> strip s = s.
+Proof.
+  intros H. unfold strip. rewrite (lstrip_plain s H).
+  rewrite lstrip_plain by (apply Forall_rev; exact H). apply rev_involutive.
+Qed.
+
+Lemma lower_plain s : Forall plain_char s -> map lower_char s = s.
+Proof.
+  induction 1 as [|c r (_ & _ & _ & Hl) _ IH]; cbn [map]; [reflexivity|]. rewrite Hl, IH. reflexivity.
+Qed.
+
+Lemma digit_chars_plain ds :
+  Forall (digit 10) ds -> Forall plain_char (map (fun d => d + 48) ds).
+Proof.
+  induction 1 as [|d r Hd _ IH]; cbn [map]; constructor; [|exact IH].
+  unfold digit in Hd. unfold plain_char, is_space, lower_char. splits; try lia.
+  destruct ((65 <=? d + 48) && (d + 48 <=? 90)) eqn:E; lia.
+Qed.
+
+Lemma digit_chars_are_digits ds :
+  Forall (digit 10) ds -> forallb is_digit (map (fun d => d + 48) ds) = true.
+Proof.
+  induction 1 as [|d r Hd _ IH]; cbn [map forallb]; [reflexivity|]. rewrite IH.
+  unfold digit in Hd. unfold is_digit. lia.
+Qed.
+
+Lemma dec_value_digit_chars ds : dec_value (map (fun d => d + 48) ds) = from_digits 10 ds.
+Proof.
+  unfold dec_value. rewrite map_map. f_equal. rewrite <- (map_id ds) at 2. apply map_ext. intros; lia.
+Qed.
+
+Lemma print_part_plain p : valid_part p -> Forall plain_char (print_part p) /\ print_part p <> [].
+Proof.
+  destruct p as [| | |n|]; cbn [valid_part print_part]; intros Hv; try contradiction.
+  1-3: split; [|discriminate];
+    repeat (constructor; [unfold plain_char; vm_compute; intuition discriminate|]); constructor.
+  destruct (to_digits_spec 10 n ltac:(lia) Hv) as (_ & Hd & Hc & _). split.
+  - apply digit_chars_plain. exact Hd.
+  - intros He. apply map_eq_nil in He. apply canon_nonempty in Hc. contradiction.
+Qed.
+
+Lemma classify_print_part p : valid_part p -> classify (print_part p) = p.
+Proof.
+  intros Hv. destruct (print_part_plain p Hv) as [Hp Hne].
+  unfold classify. rewrite (strip_plain _ Hp), (lower_plain _ Hp).
+  destruct p as [| | |n|]; cbn [valid_part print_part] in *; try contradiction; try reflexivity.
+  destruct (to_digits_spec 10 n ltac:(lia) Hv) as (Hval & Hd & Hc & _).
+  rewrite (digit_chars_are_digits _ Hd), dec_value_digit_chars, Hval.
+  destruct (to_digits 10 n) as [|d r] eqn:E; [exfalso; apply (canon_nonempty _ Hc); reflexivity|].
+  inversion Hd as [|? ? Hd0 _]; subst. unfold digit in Hd0.
+  cbn [map list_eqb s_pid]. destruct (d + 48 =? 112) eqn:E1; [lia|]. reflexivity.
+Qed.
+
+Lemma split_on_nonempty sep s : exists h t, split_on sep s = h :: t.
+Proof.
+  induction s as [|c r (h & t & IH)]; cbn [split_on]; [eauto|].
+  destruct (c =? sep); [eauto|]. rewrite IH. eauto.
+Qed.
+
+Lemma split_on_nosep sep s : ~ In sep s -> split_on sep s = [s].
+Proof.
+  induction s as [|c r IH]; intros Hn; cbn [split_on]; [reflexivity|].
+  destruct (c =? sep) eqn:E; [exfalso; apply Hn; left; lia|].
+  rewrite IH by (intros H; apply Hn; right; exact H). reflexivity.
+Qed.
+
+Lemma split_on_app_sep sep s r : ~ In sep s -> split_on sep (s ++ sep :: r) = s :: split_on sep r.
+Proof.
+  induction s as [|c s IH]; intros Hn; cbn [app split_on].
+  - rewrite Z.eqb_refl. reflexivity.
+  - destruct (c =? sep) eqn:E; [exfalso; apply Hn; left; lia|].
+    rewrite IH by (intros H; apply Hn; right; exact H). reflexivity.
+Qed.
+
+Lemma plain_no_comma s : Forall plain_char s -> ~ In 44 s.
+Proof.
+  intros H Hin. rewrite Forall_forall in H. destruct (H 44 Hin) as (_ & Hc & _). apply Hc. reflexivity.
+Qed.
+
+Lemma split_print tpl : tpl <> [] -> Forall valid_part tpl ->
+  split_on 44 (print_template tpl) = map print_part tpl.
+Proof.
+  induction tpl as [|p tpl IH]; intros Hne Hv; [contradiction|].
+  inversion Hv as [|? ? Hp Ht]; subst.
+  destruct (print_part_plain p Hp) as [Hpl _].
+  destruct tpl as [|q tpl].
+  - cbn [print_template map]. apply split_on_nosep. apply plain_no_comma. exact Hpl.
+  - change (print_template (p :: q :: tpl)) with (print_part p ++ 44 :: print_template (q :: tpl)).
+    rewrite split_on_app_sep by (apply plain_no_comma; exact Hpl).
+    rewrite IH; [reflexivity|discriminate|exact Ht].
+Qed.
+
+Lemma print_ascii tpl : Forall valid_part tpl ->
+  forallb (fun c => (0 <=? c) && (c <? 128)) (print_template tpl) = true.
+Proof.
+  induction tpl as [|p tpl IH]; intros Hv; [reflexivity|].
+  inversion Hv as [|? ? Hp Ht]; subst. destruct (print_part_plain p Hp) as [Hpl _].
+  assert (Ha : forallb (fun c => (0 <=? c) && (c <? 128)) (print_part p) = true).
+  { apply forallb_forall. intros c Hc. rewrite Forall_forall in Hpl. destruct (Hpl c Hc) as (Hr & _). lia. }
+  destruct tpl as [|q tpl]; [exact Ha|].
+  change (print_template (p :: q :: tpl)) with (print_part p ++ 44 :: print_template (q :: tpl)).
+  rewrite forallb_app, Ha. cbn [forallb]. rewrite (IH Ht). reflexivity.
+Qed.
+
+(* every template over pid / context / index / non-negative literals has a spelling that the
+   constructor's parser reads back as exactly that template *)
+Lemma parse_print tpl : tpl <> [] -> Forall valid_part tpl ->
+  parse_template (print_template tpl) = Ok tpl.
+Proof.
+  intros Hne Hv. unfold parse_template. rewrite (print_ascii tpl Hv), (split_print tpl Hne Hv).
+  f_equal. rewrite map_map. rewrite <- (map_id tpl) at 2. apply map_ext_in. intros p Hp.
+  apply classify_print_part. rewrite Forall_forall in Hv. auto.
+Qed.
+
+(* what the parser can return: a literal is always a non-negative number *)
+Lemma is_digit_value s : forallb is_digit s = true -> 0 <= dec_value s.
+Proof.
+  intros H. unfold dec_value.
+  assert (Hd : Forall (digit 10) (map (fun c => c - 48) s)).
+  { apply Forall_forall. intros d Hd. apply in_map_iff in Hd. destruct Hd as (c & <- & Hc).
+    rewrite forallb_forall in H. specialize (H c Hc). unfold is_digit in H. unfold digit. lia. }
+  pose proof (fd_bounds 10 _ ltac:(lia) Hd). lia.
+Qed.
+
+Lemma classify_literal chunk n : classify chunk = PNum n -> 0 <= n.
+Proof.
+  unfold classify. set (p := map lower_char (strip chunk)).
+  destruct (list_eqb Z.eqb p s_pid); [discriminate|].
+  destruct (negb match p with [] => true | _ => false end && forallb is_digit p) eqn:E.
+  - intros H. injection H as <-. apply is_digit_value. apply andb_true_iff in E. apply E.
+  - destruct (list_eqb Z.eqb p s_index); [discriminate|].
+    destruct (list_eqb Z.eqb p s_context); discriminate.
+Qed.
+
+Definition literal_ok (p : part) : Prop := match p with PNum n => 0 <= n | _ => True end.
+
+Lemma parse_literals_nonneg s tpl : parse_template s = Ok tpl -> Forall literal_ok tpl /\ tpl <> [].
+Proof.
+  unfold parse_template. destruct (forallb _ s); [|discriminate]. intros H. injection H as <-. split.
+  - apply Forall_forall. intros p Hp. apply in_map_iff in Hp. destruct Hp as (chunk & <- & _).
+    destruct (classify chunk) eqn:E; cbn [literal_ok]; auto. eapply classify_literal; eauto.
+  - destruct (split_on_nonempty 44 s) as (h & t & ->). discriminate.
+Qed.
+
+(* ================================================================ totality (the theorems are not vacuous) *)
+
+Lemma instantiate_nonneg tpl pid c i :
+  Forall literal_ok tpl -> nonneg pid -> 0 <= c -> 0 <= i -> nonneg (instantiate tpl pid c i).
+Proof.
+  intros Ht Hp Hc Hi. unfold instantiate, nonneg. apply Forall_forall. intros x Hx.
+  apply in_flat_map in Hx. destruct Hx as (p & Hp' & Hx). rewrite Forall_forall in Ht.
+  specialize (Ht p Hp'). destruct p; cbn [part_nums In literal_ok] in *.
+  - unfold nonneg in Hp. rewrite Forall_forall in Hp. auto.
+  - destruct Hx as [<-|[]]. exact Hc.
+  - destruct Hx as [<-|[]]. exact Hi.
+  - destruct Hx as [<-|[]]. exact Ht.
+  - contradiction.
+Qed.
+
+Lemma from_digits_nonneg b ds : 2 <= b -> Forall (digit b) ds -> 0 <= from_digits b ds.
+Proof. intros Hb Hd. pose proof (fd_bounds b ds Hb Hd). lia. Qed.
+
+Lemma encode_nonneg l : nonneg l -> 0 <= encode l.
+Proof.
+  intros Hl. unfold encode. apply from_digits_nonneg; [lia|].
+  apply join9_digits. apply map_oct_ochunk. exact Hl.
+Qed.
+
+Lemma plain_value_total tpl pid c i :
+  Forall literal_ok tpl -> nonneg pid -> 0 <= c -> 0 <= i ->
+  exists v, plain_value tpl pid c i = Ok v /\ 0 <= v.
+Proof.
+  intros Ht Hp Hc Hi. pose proof (instantiate_nonneg tpl pid c i Ht Hp Hc Hi) as Hn.
+  unfold plain_value. replace (forallb (fun x => 0 <=? x) (instantiate tpl pid c i)) with true.
+  - eexists. split; [reflexivity|]. apply encode_nonneg. exact Hn.
+  - symmetry. apply forallb_forall. intros x Hx. unfold nonneg in Hn. rewrite Forall_forall in Hn.
+    specialize (Hn x Hx). lia.
+Qed.
+
+Lemma scramble_total mask nbits n mb :
+  0 <= n -> 10 <= mb <= 1012 -> (n / 10 <> 0 -> nbits (n / 10) < 1000) ->
+  exists v, scramble mask nbits n mb = Ok v.
+Proof.
+  intros Hn Hmb Hnb. unfold scramble. cbv zeta.
+  destruct (mb <? 10) eqn:E1; [lia|].
+  destruct (n / 10 <? 0) eqn:E2; [pose proof (Z.div_pos n 10); lia|].
+  destruct (negb (Z.max (Z.max 10 (mb - 13))
+                        (if n / 10 =? 0 then Z.max 10 (mb - 13) else nbits (n / 10)) <? 1000)) eqn:E3.
+  - exfalso. destruct (n / 10 =? 0) eqn:E4; [lia|]. assert (n / 10 <> 0) by lia. specialize (Hnb H). lia.
+  - eexists. reflexivity.
+Qed.
+
+(* a numeric generator made from ANY accepted template string, with non-negative pid numbers, never
+   fails on a draw while the number stays below the 1000-bit limit of scramble_number *)
+Lemma num_value_total mask nbits s tpl pid c i r :
+  parse_template s = Ok tpl -> nonneg pid -> 0 <= c -> 0 <= i ->
+  (forall x, nbits x < 1000) ->
+  exists v, num_value mask nbits tpl pid c i r = Ok v.
+Proof.
+  intros Hs Hp Hc Hi Hnb. destruct (parse_literals_nonneg s tpl Hs) as [Hl _].
+  destruct (plain_value_total tpl pid c i Hl Hp Hc Hi) as (v & Hv & Hv0).
+  unfold num_value, bind. rewrite Hv. destruct r; [|eauto].
+  apply scramble_total; [exact Hv0|lia|intros _; apply Hnb].
+Qed.
+
+(* scramble_number is injective even if the float logarithm gave different bit counts for the two
+   calls: the result carries the bit count that was used *)
+Lemma scramble_inj_any_nbits mask nbits nbits' n n' mb mb' v :
+  scramble mask nbits n mb = Ok v -> scramble mask nbits' n' mb' = Ok v -> n = n'.
+Proof.
+  intros H H'. apply scramble_unscramble in H. apply scramble_unscramble in H'.
+  rewrite H in H'. injection H'. auto.
+Qed.
+
+(* the requested min_chars is honoured (randomize_codes raises it to at least 4) *)
+Lemma alpha_new_min_chars tpl abc mc rc a :
+  alpha_new tpl abc mc rc = Ok a -> mc <= al_min_chars a /\ al_randomize a = rc /\
+  (2 <= length (al_alphabet a))%nat.
+Proof.
+  unfold alpha_new, bind. destruct (gen_new_ok tpl); [|discriminate].
+  set (al := match abc with None => default_alphabet | Some [] => default_alphabet | Some a0 => a0 end).
+  destruct (existsb (Z.eqb 45) al); [discriminate|].
+  destruct (Z.of_nat (length al) <=? 1) eqn:E; [discriminate|].
+  intros H. injection H as <-. cbn [al_min_chars al_randomize al_alphabet]. splits.
+  - destruct rc; lia.
+  - reflexivity.
+  - lia.
+Qed.
+
+Lemma alpha_code_requested_length mask nbits bpc tpl abc mc rc a pid c i s :
+  alpha_new tpl abc mc rc = Ok a -> alpha_value mask nbits bpc a tpl pid c i = Ok s ->
+  mc <= Z.of_nat (length s) /\ Forall (fun ch => In ch (al_alphabet a)) s.
+Proof.
+  intros Ha Hv. destruct (alpha_new_min_chars _ _ _ _ _ Ha) as (Hm & _).
+  destruct (alpha_value_charset_len mask nbits bpc _ _ _ _ _ _ Hv) as [Hc Hl]. split; [lia|exact Hc].
+Qed.
